@@ -5,9 +5,26 @@ import TracklibVerif.Drv.Util
   part <s> <mode> <matrix>      → `<index list> <D[0,N-1]>`   (`optimalPartitionA`: D and M as real arrays; N = rows − 1)
   opt <s> <mode> <matrix>       → `<D[0,N-1]>`                (function form `opt`, for cross-checking the two forms)
   seg <s> <mode> <W>            → index list of `optimalSegmentation` on a track of `rows(W)` observations with
-                                  `cost(track, i, j-1) = W[i][j]`
-  simp <s> <mode> <W>           → indices of the observations kept by `optimalSimplification(track, cost, eps, mode)`
-  simplify <s> <7|8> <W>        → same through `simplify(track, cost, MODE_SIMPLIFY_FREE[_MAXIMIZE])`, or `err:type`
+                                  `cost(track, i, j-1) = W[i][j]` (cost as a total function)
+  segpy <s> <mode> <sig> <glob> <WD> <WG>
+                                → `optimalSegmentationPy`: `<sig>` = `3` (def cost(track,i,j)), `4` (…, p), `4d` (…, p=d),
+                                  `nc` (not callable); `<glob>` = `none` | `some`; `WD[i][e+1]` = value of the call WITHOUT a
+                                  fourth argument (function of three parameters / default `d`), `WG[i][e+1]` = value of the call
+                                  with the parameter that was passed. Reply: index list, `_`, or `err:type|index|value`.
+                                  The track has `rows(WD)` observations (`_` = empty track).
+  simppy <s> <mode> <sig> <glob> <WD> <WG>   → indices of the observations kept by `optimalSimplificationPy`
+  simplify <s> <smode> <sig> <glob> <WD> <WG> → `simplifyFree` (smode 7, 8: `<sig>`/`WD` describe the function given as
+                                  `tolerance`) or `simplifyBuiltin` (smode 4, 5, 6: `WG` is the built-in cost at the tolerance given,
+                                  `<glob>` says whether the tolerance is `None`); other smode: `bad-request`
+  matrix <s> <W>                → `segMatrixL` (loop form) of `optimalSegmentation` for `cost(track,i,j-1) = W[i][j]`, all rows
+  stops <s> <far> <short> <small> <keep>
+                                → `<reward matrix> <segmentation> <stops>`: `stopsMatrix` (loop form with the `break`),
+                                  `stopsSegmentation`, `stopsReported` as `a-e` pairs; the four arguments are `size × size`
+                                  tables indexed `[i][e]`: far/short/keep 0|1, small 0|1|2 (2 = `minCircle` returned `None`)
+  stopsg <s> <diameter> <duration> <dist> <dur> <circ> <keep>
+                                → the same for `findStopsGlobal` with ITS three tests (`stopPredGlobal`): `dist[i][e]`, `dur[i][e]`,
+                                  `circ[i][e]` (a negative entry = `minCircle` returned `None`) are scalars compared by the model with
+                                  `<diameter>` and `<duration>` (the harness passes squared lengths against the squared diameter)
 errors: `err:index` (one row: `backward` indexes an empty table), `err:value` (no row: negative dimension). -/
 namespace TV.Drv.C12
 open TV.Partition TV.Drv
@@ -18,9 +35,38 @@ def fn {α} (zero : α) (m : List (List α)) : Nat → Nat → α :=
   let a := (m.map List.toArray).toArray
   fun i j => ((a[i]?).bind (·[j]?)).getD zero
 
+def showErr : Err → String
+  | .type => "err:type"
+  | .index => "err:index"
+  | .value => "err:value"
+
+def showRes (r : Except Err (List Nat)) : String :=
+  match r with
+  | .ok l => showList toString l
+  | .error e => showErr e
+
+/-- the cost function described by `<sig> <WD> <WG>`; the global parameter is abstract (`Nat`: `0` = the default value,
+`1` = the value that was passed) -/
+def costFn {α} (zero : α) (sig : String) (wd wg : List (List α)) : Option (CostFn Nat α) :=
+  let D := fn zero wd
+  let G := fn zero wg
+  let f : Nat → Int → Nat → α := fun i e p => if p = 0 then D i (e + 1).toNat else G i (e + 1).toNat
+  match sig with
+  | "3" => some (.three (fun i e => D i (e + 1).toNat))
+  | "4" => some (.four f)
+  | "4d" => some (.fourD f 0)
+  | "nc" => some .notCallable
+  | _ => none
+
+def glob? (g : String) : Option (Option Nat) :=
+  if g == "none" then some none else if g == "some" then some (some 1) else none
+
 def run {α} [Add α] [LT α] [DecidableLT α] (zero : α) (shw : α → String) (cmd : String) (mode : Nat)
     (m : List (List α)) : String :=
   if !square m then "bad-request"
+  else if cmd == "matrix" then
+    let C := segMatrixL zero m.length (fun i e => fn zero m i (e + 1).toNat)
+    showListList shw ((List.range m.length).map (fun i => (List.range m.length).map (fun j => C i j)))
   else if m.length == 0 then "err:value"
   else if m.length == 1 then "err:index"
   else
@@ -32,20 +78,80 @@ def run {α} [Add α] [LT α] [DecidableLT α] (zero : α) (shw : α → String)
       s!"{showList toString (backward (mget 0 t.M) (rows - 1))} {shw (mget zero t.D 0 (rows - 2))}"
     | "opt" => shw (opt (better mode) (· + ·) C (rows - 1) 0 (rows - 2)).1
     | "seg" => showList toString (optimalSegmentation zero rows (fun i e => C i (e + 1).toNat) mode)
-    | "simp" => showList toString (optimalSimplification zero (List.range rows) (fun i e => C i (e + 1).toNat) mode)
-    | "simplify" =>
-      match simplifyFree zero (List.range rows) (fun i e => C i (e + 1).toNat) mode with
-      | some l => showList toString l
-      | none => "err:type"
     | _ => "bad-request"
+
+def runPy {α} [Add α] [LT α] [DecidableLT α] (zero : α) (cmd : String) (mode : Nat) (sig glob : String)
+    (wd wg : List (List α)) : String :=
+  if !square wd || !square wg || wd.length != wg.length then "bad-request"
+  else
+    match costFn zero sig wd wg, glob? glob with
+    | some c, some g =>
+      let size := wd.length
+      match cmd with
+      | "segpy" => showRes (optimalSegmentationPy zero size c g mode)
+      | "simppy" => showRes (optimalSimplificationPy zero (List.range size) c g mode)
+      | "simplify" =>
+        let r := if mode == 7 || mode == 8 then simplifyFree zero (List.range size) c mode
+                 else simplifyBuiltin zero (List.range size) (fun _ i e (p : Nat) => if p = 0 then fn zero wd i (e + 1).toNat else fn zero wg i (e + 1).toNat) g mode
+        match r with
+        | some r => showRes r
+        | none => "bad-request"
+      | _ => "bad-request"
+    | _, _ => "bad-request"
+
+def bool01? (m : List (List Nat)) : Bool := m.all (fun r => r.all (· ≤ 1))
+
+def runStops {α} [Add α] [LT α] [DecidableLT α] (zero : α) (shw : α → String) (sq : Nat → α)
+    (far short small keep : List (List Nat)) : String :=
+  let size := far.length
+  if !(square far && square short && square small && square keep && short.length == size && small.length == size
+        && keep.length == size && bool01? far && bool01? short && bool01? keep && small.all (fun r => r.all (· ≤ 2))) then "bad-request"
+  else if size == 0 then "err:value"
+  else if size == 1 then "err:index"
+  else
+    let p : StopPred := {
+      far := fun i e => fn 0 far i e == 1
+      short := fun i e => fn 0 short i e == 1
+      small := fun i e => match fn 2 small i e with | 0 => some false | 1 => some true | _ => none }
+    let C := stopsMatrix zero sq p size
+    let mat := (List.range size).map (fun i => (List.range size).map (fun j => C i j))
+    let st := stopsReported zero sq p (fun a e => fn 0 keep a e == 1) size
+    s!"{showListList shw mat} {showList toString (stopsSegmentation zero sq p size)} {joinWith "," (st.map (fun ae => s!"{ae.1}-{ae.2}"))}"
+
+def runStopsG {α} [Add α] [LT α] [DecidableLT α] (zero : α) (shw : α → String) (sq : Nat → α) (diameter duration : α)
+    (dist dur circ : List (List α)) (keep : List (List Nat)) : String :=
+  let size := dist.length
+  if !(square dist && square dur && square circ && square keep && dur.length == size && circ.length == size
+        && keep.length == size && bool01? keep) then "bad-request"
+  else if size == 0 then "err:value"
+  else if size == 1 then "err:index"
+  else
+    let p : StopPred := stopPredGlobal (fn zero dist) (fn zero dur)
+      (fun i e => let v := fn zero circ i e; if v < zero then none else some v) diameter duration
+    let C := stopsMatrix zero sq p size
+    let mat := (List.range size).map (fun i => (List.range size).map (fun j => C i j))
+    let st := stopsReported zero sq p (fun a e => fn 0 keep a e == 1) size
+    s!"{showListList shw mat} {showList toString (stopsSegmentation zero sq p size)} {joinWith "," (st.map (fun ae => s!"{ae.1}-{ae.2}"))}"
 
 def handle (cmd : String) (args : List String) : String :=
   match args with
+  | [s, mat] =>
+    if cmd != "matrix" then "bad-request"
+    else if s == "q" then
+      match ratListList? mat with
+      | some m => run (0 : Rat) showRat cmd 0 m
+      | none => "bad-request"
+    else if s == "f" then
+      match floatListList? mat with
+      | some m => run (0.0 : Float) showFloat cmd 0 m
+      | none => "bad-request"
+    else "bad-request"
   | [s, mode, mat] =>
     match mode.toNat? with
     | none => "bad-request"
     | some md =>
-      if s == "q" then
+      if cmd == "matrix" then "bad-request"
+      else if s == "q" then
         match ratListList? mat with
         | some m => run (0 : Rat) showRat cmd md m
         | none => "bad-request"
@@ -53,6 +159,41 @@ def handle (cmd : String) (args : List String) : String :=
         match floatListList? mat with
         | some m => run (0.0 : Float) showFloat cmd md m
         | none => "bad-request"
+      else "bad-request"
+  | [s, far, short, small, keep] =>
+    if cmd != "stops" then "bad-request"
+    else
+      match natListList? far, natListList? short, natListList? small, natListList? keep with
+      | some a, some b, some c, some d =>
+        if s == "q" then runStops (0 : Rat) showRat (fun n => ((n * n : Nat) : Rat)) a b c d
+        else if s == "f" then runStops (0.0 : Float) showFloat (fun n => (n * n).toFloat) a b c d
+        else "bad-request"
+      | _, _, _, _ => "bad-request"
+  | [s, dia, du, dist, dur, circ, keep] =>
+    if cmd != "stopsg" then "bad-request"
+    else if s == "q" then
+      match rat? dia, rat? du, ratListList? dist, ratListList? dur, ratListList? circ, natListList? keep with
+      | some a, some b, some c, some d, some e, some k =>
+        runStopsG (0 : Rat) showRat (fun n => ((n * n : Nat) : Rat)) a b c d e k
+      | _, _, _, _, _, _ => "bad-request"
+    else if s == "f" then
+      match float? dia, float? du, floatListList? dist, floatListList? dur, floatListList? circ, natListList? keep with
+      | some a, some b, some c, some d, some e, some k =>
+        runStopsG (0.0 : Float) showFloat (fun n => (n * n).toFloat) a b c d e k
+      | _, _, _, _, _, _ => "bad-request"
+    else "bad-request"
+  | [s, mode, sig, glob, wd, wg] =>
+    match mode.toNat? with
+    | none => "bad-request"
+    | some md =>
+      if s == "q" then
+        match ratListList? wd, ratListList? wg with
+        | some a, some b => runPy (0 : Rat) cmd md sig glob a b
+        | _, _ => "bad-request"
+      else if s == "f" then
+        match floatListList? wd, floatListList? wg with
+        | some a, some b => runPy (0.0 : Float) cmd md sig glob a b
+        | _, _ => "bad-request"
       else "bad-request"
   | _ => "bad-request"
 end TV.Drv.C12
